@@ -19,9 +19,28 @@ Definition verified (s : dst) : Prop :=
   exists d, lookup (fs_d s) (p_file_name p) = Some (File d) /\
             calculate_checksum (p_cktype p) (Some d) (p_progress p) 4096 = Ok (p_crc32 p).
 
-(* "data complete" is recorded only for a file that verifies as it is now *)
+(* The invariant.  First conjunct: "data complete" is recorded only for a file that verifies as it is now.  Alone it
+   is not inductive (CounterExamples.late_step_needed in proofs/SuccessInvProofs.v: a state recording "data complete"
+   while still receiving file data satisfies it, and the next File Data PDU overwrites the file); the two further
+   conjuncts are the facts about reachable states that make it so:
+   - second conjunct: "data complete" is recorded only for a metadata-only transaction (no file; the flag is never
+     cleared during a transaction) or while the step is one of TRANSFER_COMPLETION / SENDING_FINISHED /
+     WAITING_FOR_FINISHED_ACK.  In those steps no call writes the file or changes the recorded checksum type,
+     checksum, progress or file name (a Metadata, File Data or EOF PDU is only handled in earlier steps), and the file
+     is deleted only for "data incomplete".  Every caller of checksum_verify moves to TRANSFER_COMPLETION in the
+     same call (EOF in unacknowledged mode, check-limit expiry, end of the deferred lost-segment procedure, leaving
+     SENDING_EOF_ACK); an idle handler has fresh parameters ("data incomplete").
+   - third conjunct: the check-limit step is only entered by a busy handler in unacknowledged mode (the check timer is
+     started by an EOF in unacknowledged mode only; mode and state are fixed by the first PDU).  Needed because a
+     successful verification at check-limit expiry moves an unacknowledged transfer to TRANSFER_COMPLETION but an
+     acknowledged one back to SENDING_EOF_ACK, from where missing data would be requested and written
+     (CounterExamples.unacked_check_limit_needed). *)
 Definition c01_inv (s : dst) : Prop :=
-  f_deliv (p_fin (d_p s)) = DATA_COMPLETE -> verified s.
+  (f_deliv (p_fin (d_p s)) = DATA_COMPLETE -> verified s) /\
+  (f_deliv (p_fin (d_p s)) = DATA_COMPLETE ->
+     p_md_only (d_p s) = true \/ d_step s = DS_TRANSFER_COMPLETION \/ d_step s = DS_SENDING_FINISHED \/
+     d_step s = DS_WAITING_FOR_FINISHED_ACK) /\
+  (d_step s = DS_RECV_WITH_CHECK_LIMIT -> d_state s <> ST_IDLE /\ h_mode (p_conf (d_p s)) = UNACKED).
 
 (* the three parts of one busy call (text of Dest.non_idle_fsm) *)
 Definition before_completion (pkt : option pdu) : D unit :=
